@@ -4,7 +4,9 @@ mod c02;
 mod c03;
 mod c04;
 mod c05;
+mod binder;
 mod c06;
+mod c07;
 mod c08;
 mod c09;
 mod c10;
@@ -52,6 +54,7 @@ fn main() {
         let v: serde_json::Value = serde_json::from_str(&txt).expect("replay file is JSON");
         let code = match v["property"].as_str().unwrap_or("") {
             "C17" => c17::replay(&v),
+            "C07" => c07::replay(&v),
             "C09" => c09::replay(&v),
             "C08" => c08::replay(&v),
             "C02" => c02::replay(&v),
@@ -71,6 +74,10 @@ fn main() {
     }
     if args[0] == "c12w" {
         std::process::exit(c12::worker(&args[1..]));
+    }
+    if args[0] == "sqlast" {
+        c02::debug_stmt(&args[1]);
+        return;
     }
     if args[0] == "c02dbg" {
         c02::debug_parse(&args[1], &args[2]);
@@ -117,6 +124,7 @@ fn main() {
         "C04" => c04::run(tier),
         "C05" => c05::run(tier),
         "C06" => c06::run(tier),
+        "C07" => c07::run(tier),
         "C08" => c08::run(tier),
         "C09" => c09::run(tier),
         "C10" => c10::run(tier),
